@@ -36,18 +36,32 @@ Lemma inv33_solves m x : k25_det33 ROps m <> 0 ->
 Proof. dmat m; dvec x. unf25. intros H. teq; field; intro Z; apply H; rewrite <- Z; ring. Qed.
 Lemma det_inv33 m : k25_det33 ROps m <> 0 -> k25_det33 ROps (k25_inv33 ROps m) * k25_det33 ROps m = 1.
 Proof. intros H. rewrite <- det33_mul, inv33_left by auto. apply det33_identity. Qed.
-(** SymMat<3,E> inverse.  The code reads s(0,1), s(0,2), s(1,2) through SymMat::operator()(i,j), which is only valid
-    for i >= j (asserted in Debug builds; in Release builds lowerIx(i,j) is evaluated outside its contract and returns the
-    slots of s(1,0), s(1,0), s(2,0)).  The translated definition follows the Release behaviour, so the full statement is
-    REFUTED; what does hold is the restriction to matrices whose three off-diagonal elements are equal. *)
-Lemma invSym33_refuted : exists s, k25_detSym33 ROps s <> 0 /\ mm (sym_to_m33 s) (sym_to_m33 (k25_invSym33 ROps s)) <> I33.
-Proof. exists ((2,3,4),(1/10,1/5,3/10)). unfold I33. unf25. split; [lra|]. intro E. injection E. intros. lra. Qed.
-Lemma invSym33_partial xx yy zz o : k25_detSym33 ROps ((xx,yy,zz),(o,o,o)) <> 0 ->
-  sym_to_m33 (k25_invSym33 ROps ((xx,yy,zz),(o,o,o))) = k25_inv33 ROps (sym_to_m33 ((xx,yy,zz),(o,o,o))).
-Proof. unf25. intros H. teq; field; intro Z; apply H; rewrite <- Z; ring. Qed.
-Lemma invSym33_right_partial xx yy zz o : k25_detSym33 ROps ((xx,yy,zz),(o,o,o)) <> 0 ->
-  mm (sym_to_m33 ((xx,yy,zz),(o,o,o))) (sym_to_m33 (k25_invSym33 ROps ((xx,yy,zz),(o,o,o)))) = I33.
-Proof. intros H. rewrite invSym33_partial by auto. apply inv33_right. rewrite <- detSym33_is_det33. auto. Qed.
+(** SymMat<3,E> inverse (the kernel reads the elements above the diagonal with getEltUpper since fix ee24b642). *)
+Lemma invSym33_is_inv33 s : k25_detSym33 ROps s <> 0 ->
+  sym_to_m33 (k25_invSym33 ROps s) = k25_inv33 ROps (sym_to_m33 s).
+Proof. dsym s. unf25. intros H. teq; field; intro Z; apply H; rewrite <- Z; ring. Qed.
+Lemma invSym33_right s : k25_detSym33 ROps s <> 0 -> mm (sym_to_m33 s) (sym_to_m33 (k25_invSym33 ROps s)) = I33.
+Proof. intros H. rewrite invSym33_is_inv33 by auto. apply inv33_right. rewrite <- detSym33_is_det33. auto. Qed.
+Lemma invSym33_left s : k25_detSym33 ROps s <> 0 -> mm (sym_to_m33 (k25_invSym33 ROps s)) (sym_to_m33 s) = I33.
+Proof. intros H. rewrite invSym33_is_inv33 by auto. apply inv33_left. rewrite <- detSym33_is_det33. auto. Qed.
+
+(** Regression record of the defect fixed by ee24b642: before the fix the code read s(0,1), s(0,2), s(1,2) through
+    SymMat::operator()(i,j), which a Release build evaluates as the slots of s(1,0), s(1,0), s(2,0).  That expression
+    (hand-copied below, NOT the current code) is not an inverse; the current translated kernel is, on the same witness. *)
+Definition invSym33_before_fix (s : SymMat33 R) : SymMat33 R :=
+  let '((xx,yy,zz),(xy,xz,yz)) := s in
+  let s01 := xy in let s02 := xy in let s12 := xz in        (* what operator()(0,1), (0,2), (1,2) returned *)
+  let d00 := yy*zz - s12*yz in let nd01 := s12*xz - xy*zz in let d02 := xy*yz - yy*xz in
+  let d := xx*d00 + s01*nd01 + s02*d02 in let ood := 1/d in
+  let d11 := xx*zz - s02*xz in let nd12 := s01*xz - xx*yz in let d22 := xx*yy - s01*xy in
+  ((ood*d00, ood*d11, ood*d22), (ood*nd01, ood*d02, ood*nd12)).
+Lemma invSym33_before_fix_was_wrong :
+  let s : SymMat33 R := ((2,3,4),(1/10,1/5,3/10)) in
+  k25_detSym33 ROps s <> 0 /\ mm (sym_to_m33 s) (sym_to_m33 (invSym33_before_fix s)) <> I33 /\
+  mm (sym_to_m33 s) (sym_to_m33 (k25_invSym33 ROps s)) = I33.
+Proof. cbv zeta. split; [unf25; lra|]. split.
+  - unfold I33, invSym33_before_fix. vunf. intro E. injection E. intros. lra.
+  - apply invSym33_right. unf25. lra. Qed.
 
 (** ** cross products *)
 Lemma cross_is_cross a b : k25_cross ROps a b = v3_cross ROps a b.
@@ -96,15 +110,3 @@ Proof. dvec v; dvec w. unf25. teq; ring. Qed.
 (** ** non-vacuity *)
 Example ex_invertible : k25_det33 ROps ((2,1,0),(0,3,1),(1,0,2)) <> 0 /\ k25_detSym33 ROps ((2,3,4),(1,0,1)) <> 0.
 Proof. unf25. split; lra. Qed.
-
-(* Full-strength SymMat33 inverse lemmas, to be restored in place of invSym33_refuted / *_partial once
-   patches/C25_symmat33_inverse.diff is applied to the source (they do not hold of the current code):
-
-Lemma invSym33_is_inv33 s : k25_detSym33 ROps s <> 0 ->
-  sym_to_m33 (k25_invSym33 ROps s) = k25_inv33 ROps (sym_to_m33 s).
-Proof. dsym s. unf25. intros H. teq; field; intro Z; apply H; rewrite <- Z; ring. Qed.
-Lemma invSym33_right s : k25_detSym33 ROps s <> 0 -> mm (sym_to_m33 s) (sym_to_m33 (k25_invSym33 ROps s)) = I33.
-Proof. intros H. rewrite invSym33_is_inv33 by auto. apply inv33_right. rewrite <- detSym33_is_det33. auto. Qed.
-Lemma invSym33_left s : k25_detSym33 ROps s <> 0 -> mm (sym_to_m33 (k25_invSym33 ROps s)) (sym_to_m33 s) = I33.
-Proof. intros H. rewrite invSym33_is_inv33 by auto. apply inv33_left. rewrite <- detSym33_is_det33. auto. Qed.
-*)
